@@ -35,7 +35,14 @@ Definition abstract (n : nat) (i : instr) : ainstr :=
 
 Definition abstract_code (code : list ipos) : list ainstr := map (fun ip => abstract (length code) (fst ip)) code.
 
-Definition supported (i : instr) : bool := match i with IOther => false | _ => true end.
+(** the instructions of built-in calls (DATA, READ) keep their state in the call context, which the
+    certificate does not track: outside this theorem *)
+Definition supported (i : instr) : bool :=
+  match i with
+  | IOther | IBeginCollect | IPushUnnamedByVal | IPushUnnamedByRef | IPushStack | IPopStack
+  | IBuiltinData | IBuiltinRead | IEnqueue _ | IDequeue => false
+  | _ => true
+  end.
 
 (** the stack depths of a concrete state, relative to the start state *)
 Definition depths (s : mstate) : dvec := [length (vstack s); length (rstack s) - 1; length (pstack s); 0; 0; 0].
